@@ -565,9 +565,9 @@ def corruption(res, spec, idx, tier, case, plan, names, wd=None):
     if tier == "quick":
         rng.shuffle(pairs)
         pairs = pairs[:120]
-    elif len(pairs) > 2500:
+    elif len(pairs) > 1500:
         rng.shuffle(pairs)
-        pairs = pairs[:2500]
+        pairs = pairs[:1500]
     for j, (p, w) in enumerate(pairs):
         if wd is not None and j % 40 == 0:
             wd.arm("corrupt idx=%d pair=%d" % (idx, j))
@@ -600,7 +600,7 @@ def run_chunk(spec):
     wd = Watchdog(res, 120.0)
     signal.signal(signal.SIGALRM, _alarm)
     n = 30 if tier == "quick" else 500
-    ncorr = 6 if tier == "quick" else 40
+    ncorr = 6 if tier == "quick" else 25
     only = spec.get("only_case")
     idxs = [only["idx"]] if only else [ci * 100000 + j for j in range(n)]
     for j, idx in enumerate(idxs):
